@@ -200,14 +200,16 @@ theorem carries_nodePrim {s : Scene} {w : W} {md : Model} {n : GNode} (h : Carri
     ∃ m p idx, s.meshOf md = some m ∧ nodePrim s w.doc md n = some (m, p)
       ∧ p.mode = (if m.topo = 1 then some 0 else none) ∧ p.indices = some idx
       ∧ decodeAt w.doc w.buf idx = some m.indices
-      ∧ (∃ x, w.doc.accessors[idx]? = some x ∧ x.count = m.indices.length) := by
+      ∧ (∃ x, w.doc.accessors[idx]? = some x ∧ x.count = m.indices.length)
+      ∧ (∃ gm ∈ w.doc.meshes, gm.prims = [p]) := by
   obtain ⟨_, _, _, _, ⟨id, mi, gm, mat, a1, a2, a3, ⟨m, p, idx, b1, b2, b3, b4, b5, b6, _, _⟩, _⟩, _⟩ := h
   have hm : s.meshOf md = some m := by simp [Scene.meshOf, a1, b1]
-  refine ⟨m, p, idx, hm, ?_, b5, b4, decodeAt_of_accIs b6.2.2, ?_⟩
+  refine ⟨m, p, idx, hm, ?_, b5, b4, decodeAt_of_accIs b6.2.2, ?_, ?_⟩
   · have : w.doc.meshes[mi]? = some gm := a3
     simp [nodePrim, hm, a2, this, b2]
   · obtain ⟨x, h1, _, _, h4, _⟩ := b6.2.2
     exact ⟨x, h1, h4⟩
+  · exact ⟨gm, List.mem_of_getElem? a3, b2⟩
 
 theorem expectedMode_written (t : Nat) :
     (expectedMode t == some (if t = 1 then some 0 else none)) = true ↔ (t = 0 ∨ t = 1) := by
@@ -234,7 +236,7 @@ theorem gltf_topo_carried_iff (s : Scene) (w : W) (hs : SceneOK s) (h : writeSce
   unfold topoCarried
   refine zip_allZip_iff (R := Carries s w) ?_ (scene_zip_carries s w hs h)
   intro md n hc
-  obtain ⟨m, p, idx, hm, hp, hmode, _, _, _⟩ := carries_nodePrim hc
+  obtain ⟨m, p, idx, hm, hp, hmode, _, _, _, _⟩ := carries_nodePrim hc
   simp only [hp, hmode, hm, Option.some.injEq, forall_eq', expectedMode_written]
 
 /-- THE INDEX COUNT FITS THE MODE exactly when every visible model is a point mesh or has a multiple of three indices -/
@@ -244,8 +246,27 @@ theorem gltf_mode_index_iff (s : Scene) (w : W) (hs : SceneOK s) (h : writeScene
   unfold modeIndexOK
   refine zip_allZip_iff (R := Carries s w) ?_ (scene_zip_carries s w hs h)
   intro md n hc
-  obtain ⟨m, p, idx, hm, hp, hmode, hidx, hdec, _⟩ := carries_nodePrim hc
+  obtain ⟨m, p, idx, hm, hp, hmode, hidx, hdec, _, _⟩ := carries_nodePrim hc
   simp only [hp, hmode, hm, hidx, hdec, Option.some.injEq, forall_eq', modeCountOK_written]
+
+/-- DOCUMENT LEVEL (what a validator sees, without the scene): if every indexed primitive of the written document has an
+    index count compatible with its mode, then every visible model is a point mesh or has a multiple of three indices.
+    Contrapositive: ONE visible quad / line / line-strip / line-loop (or ill-formed triangle) mesh whose index count is not
+    a multiple of three makes the written document fail the mode / index-count check. -/
+theorem gltf_doc_mode_count_imp (s : Scene) (w : W) (hs : SceneOK s) (h : writeScene s = .ok w)
+    (hd : docModeCountOK w.doc = true) :
+    ∀ md ∈ s.visible, ∀ m, s.meshOf md = some m → (m.topo = 1 ∨ m.indices.length % 3 = 0) := by
+  refine (gltf_mode_index_iff s w hs h).mp ?_
+  unfold modeIndexOK
+  refine allZip_of_zip (R := Carries s w) ?_ (scene_zip_carries s w hs h)
+  intro md n hc
+  obtain ⟨m, p, idx, hm, hp, hmode, hidx, hdec, ⟨x, hx, hcount⟩, gm, hgm, hprims⟩ := carries_nodePrim hc
+  simp only [hp, hidx, hdec]
+  unfold docModeCountOK at hd
+  have h1 := List.all_eq_true.mp hd gm hgm
+  have h2 := List.all_eq_true.mp h1 p (by rw [hprims]; simp)
+  simp only [hidx, hx] at h2
+  rw [← hcount]; exact h2
 
 /-! ### the scene-level statement with every topology inside the quantifier -/
 
